@@ -4,7 +4,7 @@ import random
 
 from hypothesis import strategies as st
 
-from vlib.harness import Violation
+from vlib.harness import Violation, HarnessError
 from vlib.refmodel import jaccard as J
 
 ID = 'C15'
@@ -139,9 +139,32 @@ def run_case(case, ctx):
 		x = case.get('x')
 		if x is not None and x > min(DMAX[dt] for dt in dts):
 			x = None
-		check_triple(np, jaccarddist, sets, dts, case, extra=x)
+		d = check_triple(np, jaccarddist, sets, dts, case, extra=x)
 		A, B, C = map(set, sets)
 		classes = ['shape=' + case.get('shape', '?'), 'widths=' + ('same' if len(set(dts)) == 1 else 'mixed')]
+		if case.get('views'):
+			# the three signatures are (possibly overlapping) windows / strided views of ONE buffer, the way signatures are
+			# when they come from a concatenated container or from a caller's own pool: the distance is a function of the
+			# k-mer sets, so it must equal, bit for bit, the one computed from separately allocated copies
+			pool = np.array(case['pool'], dtype=dts[0])
+			vs = [pool[st_:st_ + ln * sp:sp] for st_, ln, sp in case['views']]
+			for v, s_ in zip(vs, sets):
+				if v.tolist() != list(s_):
+					raise HarnessError(f'view does not hold the set it was generated for: {case["views"]}')
+			overlap = False
+			for i in range(3):
+				for j in range(3):
+					try:
+						dv = float(jaccarddist(vs[i], vs[j]))
+					except Exception as e:
+						raise Violation('exception', f'jaccarddist raised {type(e).__name__}: {e} for views of one buffer', case)
+					if J.float_to_bits(dv) != J.float_to_bits(d[i, j]):
+						raise Violation('storage_changes_distance', f'd({i},{j})={dv!r} for views {case["views"][i]},{case["views"][j]} of one buffer but {d[i, j]!r} for separately allocated copies of the same sets (sets equal={set(sets[i]) == set(sets[j])})', case)
+					if i != j and np.shares_memory(vs[i], vs[j]):
+						overlap = True
+			classes.append('views_of_one_buffer')
+			if overlap:
+				classes.append('views_overlap_in_memory')
 		if max(map(len, sets)) >= 500:
 			classes.append('size>=500')
 		if A < B < C or C < B < A:
@@ -165,7 +188,7 @@ DT_TRIPLES = [('u8', 'u8', 'u8'), ('u4', 'u4', 'u4'), ('u2', 'u2', 'u2'), ('u2',
 def triple_case(draw, tier):
 	dts = draw(st.sampled_from(DT_TRIPLES))
 	lim = min(DMAX[d] for d in dts)
-	shape = draw(st.sampled_from(['near_equal', 'chain', 'independent', 'near_disjoint', 'tiny', 'alias'] * 4 + ['big_near_equal']))
+	shape = draw(st.sampled_from(['near_equal', 'chain', 'independent', 'near_disjoint', 'tiny', 'alias', 'views'] * 4 + ['big_near_equal']))
 	rnd = random.Random(draw(st.integers(0, 2 ** 32 - 1)))
 	if shape == 'big_near_equal':
 		n = draw(st.sampled_from([6000, 9000, 20000, 50000]))
@@ -183,6 +206,23 @@ def triple_case(draw, tier):
 		U = sorted({v + sh for v in win for sh in shifts})
 		lim = max(DMAX[d] for d in dts)
 		U = [u for u in U if u <= lim]
+	if shape == 'views':
+		# equal-length windows (one of them possibly strided) of one sorted pool: same dtype, overlapping memory
+		dts = (dts[0],) * 3
+		U = [u for u in U if u <= DMAX[dts[0]]]
+		if len(U) < 4:
+			U = sorted(set(U) | {0, 1, 2, 3})
+		n = len(U)
+		ln = rnd.randrange(1, max(2, n // 2))
+		s1 = rnd.randrange(0, n - ln + 1)
+		s2 = min(n - ln, max(0, s1 + rnd.choice((1, 1, -1, 2, ln // 2, ln, 0))))
+		views = [(s1, ln, 1), (s2, ln, 1)]
+		if rnd.random() < 0.5 and s1 + 2 * ln - 1 <= n:
+			views.append((s1, ln, 2))
+		else:
+			views.append((rnd.randrange(0, n - ln + 1), ln, 1))
+		a, b, c = ([U[st_ + i * sp] for i in range(l_)] for st_, l_, sp in views)
+		return {'kind': 'triple', 'a': a, 'b': b, 'c': c, 'dts': list(dts), 'x': None, 'shape': shape, 'pool': U, 'views': [list(v) for v in views]}
 	flip = lambda s, m: sorted(set(s) ^ set(rnd.sample(U, min(m, len(U)))))
 	if shape == 'big_near_equal':
 		a = list(U)
